@@ -199,7 +199,7 @@ CHECKS['C16'] = dict(
    text='Mixed. Exhaustive-domain (real functions, complete finite domains): csvw_date_format_to_md_date_format gives the strptime '
         'directive for every separator-delimited sequence of <= 2 (quick) / 3 (thorough) of the 12 documented tokens over the six '
         'separators; CSVW_TYPE_TO_MTYPE and MTYPE_TO_PANDAS_DTYPE are total over the 46 documented datatypes and compose to the dtype '
-        'family or a date parser. Proved on the real csvw code: to_pandas_read_csv_args maps the metadata fields to the read_csv keywords (names, dtypes, date columns and formats, delimiter, encoding, header, titles, boolean spellings); "
+        'family or a date parser. Proved on the real csvw code: to_pandas_read_csv_args maps the metadata fields to the read_csv keywords (names, dtypes, date columns and formats, delimiter, encoding, header, titles, boolean spellings); '
         'CSVWMetadata.get_fields_metadata gives each described column its declared type, its format translated if date-like and kept otherwise (ISO 8601 without one) and its titles, '
         'for every spelling of type, format and titles; process_dialect reads delimiter, encoding and the number of header rows for every spelling of the header\'s presence. Bounded (labelled): instants written with 10 composed patterns are read back exactly by the translated '
         'format; seeded CSV files (integer/number/string/boolean/datetime with nulls) x delimiters x encodings x header present/absent x '
